@@ -26,7 +26,7 @@ REVIEWED_INDEX = {
     "<minijinja_contrib::globals::cycler::Cycler as minijinja::value::object::Object>::call_method|call:load":
         "pos is only ever stored as (idx + 1) % items.len() and items is non-empty by construction",
     "minijinja_contrib::filters::striptags::{closure#1}|arg2": "the closure maps the Ok(index) of binary_search_by_key on the same table",
-    "minijinja_contrib::globals::lipsum|call:next_usize": "next_usize(n) returns a value below n = LIPSUM_WORDS.len()",
+    "minijinja_contrib::globals::lipsum|call:next_usize": "next_usize(n) returns a value below n = LIPSUM_WORDS.len() (verified by C01.P9.bounded-index-helper-clamps)",
     "minijinja::formatting::Cursor::rest_bytes|RangeFrom(arg1.current_offset)": "cursor offset never exceeds the source length (advance() slices the same string)",
 }
 
@@ -119,3 +119,30 @@ def check_indexing(ctx, prog):
                    "path that covers it, no search result as bound and no reviewed reason: an out-of-range index panics" % e,
                    f.where(bb))
     ctx.floor("C01.P9 indexing sites in the builtin modules", n, 12)
+    # reviewed entries of the form `..|call:<helper>` lean on a helper of the program returning a value below the bound
+    # it is given.  That is checked, not believed: what the helper returns is clamped by `min(bound - 1)` (the float
+    # scaling `(random() * max as f64) as usize` alone reaches `max` when random() rounds up to 1.0 - defect 0f10a1c).
+    for key in sorted(REVIEWED_INDEX):
+        if "|call:" not in key:
+            continue
+        host, helper = key.split("|call:")
+        hf = prog.fns.get(host)
+        if hf is None:
+            continue
+        for c in hf.calls():
+            if c.name.split("::")[-1] != helper or not prog.has_fn(c.name):
+                continue
+            g = prog.fn(c.name)
+            rets = flow.origins(g, 0)
+            ok = bool(rets)
+            for r in rets:
+                clamp = r.kind == "call" and r.call.name.endswith("::min") and any(
+                    (o.kind == "call" and o.call.name.endswith("saturating_sub") and any(
+                        q.kind == "arg" and not q.proj for q in flow.origins(g, o.call.args[0]))) or
+                    (o.kind == "bin" and o.rv["op"] in ("Sub", "SubWithOverflow") and any(
+                        q.kind == "arg" and not q.proj for q in flow.origins(g, o.rv["a"])))
+                    for a in r.call.args if "c" not in a for o in flow.origins(g, a))
+                ok = ok and clamp
+            ctx.ob("C01.P9.bounded-index-helper-clamps", "%s|%s" % (g.path, helper), ok,
+                   "%s is relied on (reviewed entry for %s) to return an index below the bound it is given, but its "
+                   "result is not clamped to bound - 1: %s" % (g.path, host.split("::")[-1], [repr(r) for r in rets]), g.loc)
